@@ -124,13 +124,13 @@ theorem C18_del_safe (d : Dir) (caseName : String) (m : String)
       · rw [if_pos b0] at hgone; rw [hm] at hgone; cases hgone
       · rw [if_neg b0] at hgone
         by_cases a1 : (refCount cases driver == 1) = true
-        · by_cases b1 : ((refCount cases driver == 1) && !(d.erase (target caseName)).has driver) = true
+        · by_cases b1 : ((refCount cases driver == 1) && !(d.erase (target caseName)).removable driver) = true
           · rw [if_pos b1] at hgone
             rw [has_erase, hm, hne] at hgone; cases hgone
           · rw [if_neg b1] at hgone
             simp only [a1, if_true] at hgone
             by_cases a2 : (refCount cases script == 1) = true
-            · by_cases b2 : ((refCount cases script == 1) && !((d.erase (target caseName)).erase driver).has script) = true
+            · by_cases b2 : ((refCount cases script == 1) && !((d.erase (target caseName)).erase driver).removable script) = true
               · rw [if_pos b2] at hgone
                 rw [has_erase, has_erase, hm, hne] at hgone
                 simp only [Bool.true_and, bne_eq_false_iff_eq] at hgone
@@ -150,7 +150,7 @@ theorem C18_del_safe (d : Dir) (caseName : String) (m : String)
         · have a1' : (refCount cases driver == 1) = false := by simpa using a1
           simp only [a1', Bool.false_and, Bool.false_eq_true, if_false] at hgone
           by_cases a2 : (refCount cases script == 1) = true
-          · by_cases b2 : ((refCount cases script == 1) && !(d.erase (target caseName)).has script) = true
+          · by_cases b2 : ((refCount cases script == 1) && !(d.erase (target caseName)).removable script) = true
             · rw [if_pos b2] at hgone
               rw [has_erase, hm, hne] at hgone; cases hgone
             · rw [if_neg b2] at hgone
@@ -186,6 +186,7 @@ theorem C18_iter : ∀ (d : Dir) (cs : List (String × String × String)), itera
           simp [List.filter, hc, ih rest hr]
       | other t => cases h
       | badJson => cases h
+      | dir => cases h
     · rw [if_neg hc] at h
       simp only [List.filter, hc]
       exact ih cs h
